@@ -1,6 +1,6 @@
 //! C27 Address book keeps the newest authentic transport info per node.
 //!
-//! Every sequence without repetition over an 11-record alphabet (NodeInfo level: length <= 5,
+//! Every sequence without repetition over a 13-record alphabet (NodeInfo level: length <= 5,
 //! thorough 6; address-book level: length <= 3, thorough 5) is
 //! delivered (a) to plain `NodeInfo::update_transports` entries (depth-first with shared
 //! prefixes) and (b) through the real `AddressBook` actor (`insert_transport_info`, SQLite store)
@@ -101,6 +101,22 @@ fn world() -> World {
             forged: Some("tampered-timestamp"),
             kind: "tampered-timestamp",
         }
+    });
+    // records without any address: the signature still covers the timestamp, so a forged one must
+    // be refused like any other and an authentic one is a regular (newest-wins) update
+    recs.push(Rec {
+        name: "fE",
+        target: Target::N,
+        info: signed(&kx, ts(9, 0), std::iter::empty()).into(),
+        forged: Some("signed-by-other-key-without-addresses"),
+        kind: "signed-by-other-key-without-addresses",
+    });
+    recs.push(Rec {
+        name: "aE",
+        target: Target::N,
+        info: signed(&kn, ts(2, 2), std::iter::empty()).into(),
+        forged: None,
+        kind: "authentic-without-addresses",
     });
     recs.push(Rec {
         name: "aM",
@@ -628,7 +644,7 @@ fn self_check(w: &World) -> Result<(), String> {
     let mut ts: Vec<_> = w.recs.iter().filter(|r| r.forged.is_none() && r.target == Target::N).map(|r| r.info.timestamp()).collect();
     ts.sort();
     ts.dedup();
-    if ts.len() != 5 {
+    if ts.len() != 6 {
         return Err("expected exactly one pair of equal timestamps among the authentic records".into());
     }
     Ok(())
